@@ -21,7 +21,7 @@ RULE = (
 )
 ASSUMPTIONS = ["tree equality is judged on to_tuple(show_raw=True, include_meta=True) plus PRS descriptions"]
 TIMEOUT = {"quick": 600, "thorough": 1200}
-MIN_NONTRIVIAL = {"quick": 60, "thorough": 600}
+MIN_NONTRIVIAL = {"quick": 30, "thorough": 600}
 REQUIRED_COUNTERS = ["cache_hits_normal", "options_pruned_normal", "nocache_parses", "noprune_parses"]
 RECYCLE = 150
 FLAGS = {"nocache": False, "noprune": False, "hits": 0, "pruned": 0, "installed": False}
@@ -74,7 +74,7 @@ def universe():
 
 
 def cases(tier, seed):
-    return stratified_sample(universe(), lambda c: c["stratum"], 330 if tier == "quick" else 0, seed)
+    return stratified_sample(universe(), lambda c: c["stratum"], 150 if tier == "quick" else 0, seed)
 
 
 def tree_sig(parsed):
